@@ -261,9 +261,12 @@ def run_commented(chunk, ctx):
         vs = c07_invariants(prog, o) if c07 else violations(o)
         if vs:
             text = SymStr(items).concretize(ex.model())
+            # C07 invariants are about the comment statement itself: the form is part of the fingerprint; a C01 diagnostic is
+            # identified by its token window as everywhere else (the same false positive with or without a comment nearby)
+            suffix = (":comment-" + chunk["form"]) if c07 else ""
             for fp, what in vs:
-                col.violation(fp + ":comment-" + chunk["form"], what + f" (comment line, form {chunk['form']}, in front of line {b + 1})",
-                              dict(name=prog.name, text=text, c07=meta if c07 else None, suffix=":comment-" + chunk["form"]))
+                col.violation(fp + suffix, what + f" (comment line, form {chunk['form']}, in front of line {b + 1})",
+                              dict(name=prog.name, text=text, c07=meta if c07 else None, suffix=suffix))
             cur["viol"] = True
         return dict(kind=o.kind, errors=[list(e) for e in o.errors])
 
